@@ -473,3 +473,43 @@ def changed_anchor_files(pid):
     except Exception:
         return []
     return [f for f in anchors if source_hash(os.path.join(REPO, f)) != base.get(f)]
+
+
+# ---- source tie: the word-level helpers are translated from the Rust text on every run
+GENTIE_FILES = ["src/lib.rs", "src/bytes.rs", "src/algorithms/mod.rs", "src/algorithms/ops.rs",
+                "src/algorithms/mul.rs", "src/algorithms/mul_redc.rs",
+                "src/algorithms/div/reciprocal.rs", "src/algorithms/div/small.rs"]
+
+
+def gentie_applies(pid):
+    """The properties whose anchored files contain a translated function."""
+    try:
+        for l in open(os.path.join(VERIF, "properties.jsonl")):
+            p = json.loads(l)
+            if p["id"] == pid:
+                return any(f in GENTIE_FILES for f in p["anchors"]["files"])
+    except Exception:
+        pass
+    return False
+
+
+def gen_tie(timeout=900):
+    """Regenerate coq/Gen/Scalar.v from REPO's current text (tools_rs2v.py) and re-check
+    Properties/GenTie.v (generated definitions = model functions) against it.
+    Returns dict(status = proved | broken, functions = {gname: pure|outcome|unsupported...}, log)."""
+    sys.path.insert(0, VERIF)
+    import tools_rs2v
+    out = os.path.join(COQ, "Gen", "Scalar.v")
+    try:
+        text, status = tools_rs2v.translate(REPO)
+    except Exception as ex:                       # the translator itself failed: no tie this run
+        return {"status": "broken", "functions": {}, "log": "translator: %r" % (ex,)}
+    old = open(out).read() if os.path.exists(out) else None
+    if old != text:
+        os.makedirs(os.path.dirname(out), exist_ok=True)
+        open(out, "w").write(text)
+    ok, log = coq_build(["Properties/GenTie.vo"], timeout)
+    closed = "Closed under the global context" in log or (ok and "Axioms:" not in log)
+    res = {"status": "proved" if (ok and closed) else "broken", "functions": status,
+           "regenerated": old != text, "log": "" if ok else log[-1200:]}
+    return res
